@@ -1,0 +1,3 @@
+// Package verifhook exposes selected internal packages to external
+// verification harnesses. It is empty unless built with the "verif" build tag.
+package verifhook
